@@ -1,1 +1,732 @@
-"""C05 templates, part 3."""
+"""C05 templates, part 3: Conv/Pad/BatchNorm/affine/bias families and the rules.fusion package."""
+from __future__ import annotations
+
+import numpy as np
+from onnx import numpy_helper
+
+from .c05_templates import S, Skip, template
+
+
+def _f16tol(h, dtype):
+    """float16 fusions re-round folded weights: only gross differences are meaningful."""
+    if dtype == "float16":
+        h.rtol, h.atol = 5e-2, 0.3
+
+
+def _w(h, shape, dtype="float32", lo=-2, hi=2):
+    if np.dtype(dtype).kind in "iu":
+        info = np.iinfo(dtype)
+        return h.rs.integers(max(info.min, -3), min(info.max, 4), shape).astype(dtype)
+    return np.round(h.rs.uniform(lo, hi, shape), 2).astype(dtype)
+
+
+# ------------------------------------------------------------------------------------------ Conv(Pad(x)) -> Conv
+@template("pad_conv")
+def t_pad_conv(p):
+    op = p["op"]
+    integer = op == "ConvInteger"
+
+    def mk(nd=2, pads=None, mode=None, cv="omit", axes=None, conv=None, pads_kind="init", cv_kind="init", opset=18, decl=None,
+           dtype=None, tap=None, xzp=None, wzp=None, group=1, alts_pads=None, alts_cv=None):
+        def fn(h):
+            h.opset = opset
+            dt = dtype or ("uint8" if integer else "float32")
+            C = 2 * group
+            xs = [1 + h.rng.randint(0, 1), C] + [5 + h.rng.randint(0, 2) for _ in range(nd)]
+            rank = nd + 2
+            dc = decl(xs) if callable(decl) else decl
+            x = h.inp(dt, None if dc == "none" else (dc if dc is not None else xs), rt=xs, mag="mod", name="X")
+            if pads is None:
+                pv = [0, 0] + [1 + (i % 2) for i in range(nd)] + [0, 0] + [2 - (i % 2) for i in range(nd)]
+            else:
+                pv = list(pads)
+            ins = [x, h.operand(np.array(pv, np.int64), pads_kind, alts=[np.array(a, np.int64) for a in (alts_pads or [])])]
+            if cv != "omit" or axes is not None:
+                ins.append("" if cv == "omit" else h.operand(np.array(cv, dt), cv_kind, alts=[np.array(a, dt) for a in (alts_cv or [])]))
+            if axes is not None:
+                ins.append(h.operand(np.array(axes, np.int64), "init"))
+            pd = h.node("Pad", ins, mode=mode)
+            k = 3
+            cattrs = dict(conv or {})
+            cin = C + (pv[1] + pv[rank + 1] if (axes is None and len(pv) == 2 * rank) else 0)
+            wshape = [4 * group, cin // group] + [cattrs.pop("_k", k)] * nd
+            wdt = "int8" if (integer and wzp == "int8") else dt
+            w = h.operand(_w(h, wshape, wdt), "init", name="W")
+            cins = [pd, w]
+            if integer:
+                if xzp is not None or wzp is not None:
+                    cins.append(h.operand(np.array(xzp if xzp is not None else 0, dt), "init", name="xzp"))
+                if wzp is not None:
+                    cins.append(h.operand(np.array(0 if wzp == "int8" else wzp, wdt), "init", name="wzp"))
+            elif cattrs.pop("_bias", False):
+                cins.append(h.operand(_w(h, [4 * group], dt), "init", name="Bc"))
+            if group != 1:
+                cattrs["group"] = group
+            y = h.node(op, cins, **cattrs)
+            h.out(y)
+            if tap:
+                h.tap(pd, tap)
+        return fn
+
+    ok = "spatial zero padding"
+    out = [
+        S("basic_2d", ok, mk()), S("basic_1d_opset13", ok, mk(nd=1, opset=13)), S("basic_3d_opset21", ok, mk(nd=3, opset=21)),
+        S("cv_zero_explicit", ok, mk(cv=0)), S("mode_constant_explicit", ok, mk(mode="constant")),
+        S("conv_has_pads", ok + ";conv has pads", mk(conv={"pads": [1, 0, 2, 1]})),
+        S("conv_strides_dilations", ok + ";strides,dilations", mk(conv={"strides": [2, 1], "dilations": [1, 2], "kernel_shape": [3, 3]})),
+        S("conv_group2", ok + ";group=2", mk(group=2)),
+        S("pads_const_node_sym_batch", ok, mk(pads_kind="const", decl=lambda xs: ["N", xs[1], "H", xs[3]])),
+        S("axes_spatial_opset18", ok + ";axes given", mk(pads=[1, 2, 2, 1], axes=[2, 3])),
+        S("axes_negative_opset19", ok + ";axes given", mk(pads=[1, 2, 2, 1], axes=[-1, -2], opset=19)),
+        S("axes_one_spatial", ok + ";axes given", mk(pads=[2, 1], axes=[3])),
+        S("axes_batch", "padding on batch/channel", mk(pads=[1, 0], axes=[0])),
+        S("pads_on_channel", "padding on batch/channel", mk(pads=[0, 2, 0, 0, 0, 0, 0, 0], group=1)),
+        S("negative_pads", "negative pads", mk(pads=[0, 0, -1, 1, 0, 0, 1, -1])),
+        S("zero_pads", "all pads zero", mk(pads=[0] * 8)),
+        S("mode_reflect", "mode!=constant", mk(mode="reflect")), S("mode_edge", "mode!=constant", mk(mode="edge")),
+        S("cv_nonzero", "constant_value!=0", mk(cv=1 if integer else 0.5)),
+        S("conv_auto_pad_same", "conv auto_pad!=NOTSET", mk(conv={"auto_pad": "SAME_UPPER"})),
+        S("conv_auto_pad_valid", "conv auto_pad!=NOTSET", mk(conv={"auto_pad": "VALID"})),
+        S("conv_auto_pad_notset_explicit", ok + ";auto_pad=NOTSET explicit", mk(conv={"auto_pad": "NOTSET"})),
+        S("x_rank_unknown", "x rank unknown", mk(decl="none")),
+        S("pads_init_input", "overridable-initializer", mk(pads_kind="init_input", alts_pads=[[0, 0, 2, 2, 0, 0, 0, 1]])),
+        S("cv_init_input", "overridable-initializer", mk(cv=0, cv_kind="init_input", alts_cv=[3 if integer else 1.5])),
+        S("pads_graph_input", "pads=graph-input", mk(pads_kind="input")),
+        S("pad_is_output", "intermediate-is-output", mk(tap="output")), S("pad_has_consumer", "intermediate-has-consumer", mk(tap="consumer")),
+    ]
+    if integer:
+        out += [
+            S("x_zero_point_nonzero", "x_zero_point!=0", mk(xzp=5)),
+            S("x_zero_point_zero", ok + ";x_zero_point=0", mk(xzp=0)),
+            S("x_zero_point_equals_cv", "x_zero_point==constant_value!=0", mk(xzp=5, cv=5)),
+            S("w_zero_point", ok + ";w_zero_point", mk(xzp=0, wzp=2)),
+            S("int8_x", ok + ";int8", mk(dtype="int8", xzp=0, wzp="int8")),
+        ]
+    else:
+        out += [
+            S("with_bias", ok + ";bias", mk(conv={"_bias": True})),
+            S("f16", ok + ";float16", mk(dtype="float16")), S("cv_negzero", ok + ";cv=-0.0", mk(cv=-0.0)),
+            S("cv_eps", "constant_value~0", mk(cv=1e-9)),
+        ]
+    return out
+
+
+# ------------------------------------------------------------------------------------------ auto_pad -> pads
+@template("autopad")
+def t_autopad(p):
+    op = p["op"]
+    integer = op == "ConvInteger"
+
+    def mk(auto="SAME_UPPER", nd=2, size=(5, 6), k=3, strides=None, dilations=None, kernel_attr=True, opset=18, decl=None, dtype=None,
+           w_kind="init", group=1, pads=None, declare_out=False):
+        def fn(h):
+            h.opset = opset
+            dt = dtype or ("uint8" if integer else "float32")
+            C = 2 * group
+            xs = [1 + h.rng.randint(0, 1), C] + list(size)[:nd]
+            dc = decl(xs) if callable(decl) else decl
+            x = h.inp(dt, None if dc == "none" else (dc if dc is not None else xs), rt=xs, mag="mod", name="X")
+            ks = [k] * nd if isinstance(k, int) else list(k)
+            wshape = [4 * group, C // group] + ks
+            if w_kind == "input":
+                w = h.inp(dt, wshape, mag="mod", name="W")
+            else:
+                w = h.operand(_w(h, wshape, dt), w_kind, name="W")
+            attrs = {"auto_pad": auto, "strides": strides, "dilations": dilations, "pads": pads}
+            if kernel_attr:
+                attrs["kernel_shape"] = ks
+            if group != 1:
+                attrs["group"] = group
+            y = h.node(op, [x, w], **attrs)
+            h.out(y)
+        return fn
+
+    out = []
+    for auto in ("SAME_UPPER", "SAME_LOWER"):
+        a = auto.split("_")[1].lower()
+        out += [
+            S(f"{a}_k3_s1", f"{auto};dilations=1", mk(auto)),
+            S(f"{a}_k2_s1_even_kernel", f"{auto};dilations=1", mk(auto, k=2)),
+            S(f"{a}_k3_s2_odd_even_sizes", f"{auto};dilations=1", mk(auto, strides=[2, 2], size=(5, 6))),
+            S(f"{a}_k4_s3", f"{auto};dilations=1", mk(auto, k=4, strides=[3, 3], size=(7, 8))),
+            S(f"{a}_k32_s12", f"{auto};dilations=1", mk(auto, k=(3, 2), strides=[1, 2], size=(6, 7))),
+            S(f"{a}_no_kernel_attr", f"{auto};dilations=1;kernel_shape absent", mk(auto, kernel_attr=False)),
+            S(f"{a}_dil2", f"{auto};dilations>1", mk(auto, dilations=[2, 2], size=(7, 8))),
+            S(f"{a}_dil12_s2", f"{auto};dilations>1", mk(auto, dilations=[1, 2], strides=[2, 1], size=(7, 8))),
+            S(f"{a}_dil1_explicit", f"{auto};dilations=1", mk(auto, dilations=[1, 1])),
+            S(f"{a}_1d_opset13", f"{auto};dilations=1", mk(auto, nd=1, size=(7,), opset=13)),
+            S(f"{a}_3d_opset21", f"{auto};dilations=1", mk(auto, nd=3, size=(4, 5, 4), opset=21)),
+            S(f"{a}_sym_batch", f"{auto};dilations=1", mk(auto, decl=lambda xs: ["N"] + xs[1:])),
+            S(f"{a}_sym_spatial", f"{auto};spatial symbolic", mk(auto, decl=lambda xs: [xs[0], xs[1], "H", xs[3]], size=(5, 6))),
+            S(f"{a}_group2", f"{auto};dilations=1", mk(auto, group=2)),
+            S(f"{a}_w_graph_input", f"{auto};W graph input", mk(auto, w_kind="input")),
+            S(f"{a}_w_graph_input_no_kernel_attr", f"{auto};W graph input;kernel_shape absent", mk(auto, w_kind="input", kernel_attr=False)),
+        ]
+    out += [
+        S("valid_k3", "VALID", mk("VALID")), S("valid_s2_dil2", "VALID", mk("VALID", strides=[2, 2], dilations=[2, 2], size=(7, 8))),
+        S("valid_sym_spatial", "VALID;spatial symbolic", mk("VALID", decl=["N", 2, "H", "W"])),
+        S("valid_1d", "VALID", mk("VALID", nd=1, size=(7,))),
+        S("valid_rank_unknown", "VALID;x rank unknown", mk("VALID", decl="none")),
+        S("notset_explicit", "NOTSET", mk("NOTSET", pads=[1, 1, 1, 1])), S("absent", "auto_pad absent", mk(None, pads=[1, 0, 0, 1])),
+    ]
+    if not integer:
+        out += [S("lower_f16", "SAME_LOWER;dilations=1", mk("SAME_LOWER", dtype="float16"))]
+    return out
+
+
+# ------------------------------------------------------------------------------------------ BatchNorm into Conv/ConvT/Gemm
+@template("batchnorm")
+def t_batchnorm(p):
+    op = p["op"]
+
+    def mk(bias=True, eps=None, group=1, nd=2, dtype="float32", opset=18, bn_kind="init", w_kind="init", tap=None, training=None,
+           gemm=None, cshape=None, shared_w=False, momentum=None, bn_alts=None, conv=None):
+        def fn(h):
+            h.opset = opset
+            h.scale = 8.0
+            _f16tol(h, dtype)
+            g = dict(gemm or {})
+            if op == "Gemm":
+                M, K, N = 3, 4, 5
+                x = h.inp(dtype, [K, M] if g.get("transA") else [M, K], mag="mod", name="X")
+                wshape = [N, K] if g.get("transB") else [K, N]
+                C = N
+            else:
+                cin = 2 * group
+                xs = [2, cin] + [5] * nd
+                x = h.inp(dtype, xs, mag="mod", name="X")
+                C = 4 * group if op == "Conv" else 3 * group
+                wshape = ([C, cin // group] if op == "Conv" else [cin, C // group]) + [3] * nd
+            wv = _w(h, wshape, dtype)
+            w = h.operand(wv, w_kind, name="W") if w_kind != "input" else h.inp(dtype, wshape, mag="mod", name="W")
+            ins = [x, w]
+            if bias:
+                bs = list(cshape) if cshape is not None else [C]
+                ins.append(h.operand(_w(h, bs, dtype), w_kind if w_kind != "input" else "init", name="Bi"))
+            attrs = dict(conv or {})
+            if op == "Gemm":
+                attrs.update({k: v for k, v in g.items()})
+            elif group != 1:
+                attrs["group"] = group
+            y = h.node(op, ins, **attrs)
+            sc = np.round(h.rs.uniform(0.5, 2.0, C), 2).astype(dtype)
+            bt = np.round(h.rs.uniform(-1, 1, C), 2).astype(dtype)
+            mean = np.round(h.rs.uniform(-1, 1, C), 2).astype(dtype)
+            var = np.round(h.rs.uniform(0.5, 2.0, C), 2).astype(dtype)
+            al = bn_alts
+            bn_ins = [y, h.operand(sc, bn_kind, name="scale", alts=[sc * 2] if al else None), h.operand(bt, bn_kind, name="beta"),
+                      h.operand(mean, bn_kind, name="mean"), h.operand(var, bn_kind, name="var")]
+            if training:
+                o = h.node("BatchNormalization", bn_ins, nout=3, epsilon=eps, training_mode=1, momentum=momentum)
+                z = o[0]
+            else:
+                z = h.node("BatchNormalization", bn_ins, epsilon=eps, training_mode=training, momentum=momentum)
+            h.out(z)
+            if tap:
+                h.tap(y, tap)
+            if shared_w:
+                h.out(h.node("Identity", [w]))
+        return fn
+
+    ok = "inference BN;constant params"
+    out = [
+        S("bias", ok, mk()), S("no_bias", ok + ";no bias", mk(bias=False)),
+        S("eps_1e-2", ok + ";epsilon non-default", mk(eps=1e-2)), S("eps_tiny_opset13", ok + ";epsilon non-default", mk(eps=1e-12, opset=13)),
+        S("opset15", ok, mk(opset=15)), S("opset21_momentum", ok, mk(opset=21, momentum=0.5)),
+        S("training_mode0_explicit", ok + ";training_mode=0 explicit", mk(training=0)),
+        S("training_mode1", "training_mode=1", mk(training=1)),
+        S("bn_const_nodes", "BN params=Constant nodes", mk(bn_kind="const")),
+        S("bn_init_input", "overridable-initializer", mk(bn_kind="init_input", bn_alts=True)),
+        S("bn_graph_input", "BN params=graph-input", mk(bn_kind="input")),
+        S("w_graph_input", "W=graph-input", mk(w_kind="input")),
+        S("w_shared", "W has another consumer", mk(shared_w=True)),
+        S("mid_is_output", "intermediate-is-output", mk(tap="output")), S("mid_has_consumer", "intermediate-has-consumer", mk(tap="consumer")),
+        S("f16", ok + ";float16", mk(dtype="float16")),
+    ]
+    if op == "Gemm":
+        out.append(S("f64", ok + ";double", mk(dtype="float64")))
+        out += [
+            S("transB", ok + ";transB=1", mk(gemm={"transB": 1})), S("transA", ok + ";transA=1", mk(gemm={"transA": 1})),
+            S("transB0_explicit", ok + ";transB=0 explicit", mk(gemm={"transB": 0})),
+            S("alpha2", ok + ";alpha!=1", mk(gemm={"alpha": 2.0})), S("beta_half", "gemm beta!=1", mk(gemm={"beta": 0.5})),
+            S("beta_zero", "gemm beta!=1", mk(gemm={"beta": 0.0})), S("alpha_beta", "gemm beta!=1", mk(gemm={"alpha": 0.5, "beta": 2.0, "transB": 1})),
+            S("c_scalar", ok + ";C scalar", mk(cshape=())), S("c_1N", ok + ";C=[1,N]", mk(cshape=(1, 5))),
+            S("c_MN", ok + ";C=[M,N]", mk(cshape=(3, 5))), S("c_M1", ok + ";C=[M,1]", mk(cshape=(3, 1))),
+        ]
+    else:
+        out += [
+            S("group2", ok + ";group=2", mk(group=2)), S("group2_no_bias", ok + ";group=2", mk(group=2, bias=False)),
+            S("conv1d", ok, mk(nd=1)), S("conv3d", ok, mk(nd=3)),
+            S("strides_pads", ok + ";strides,pads", mk(conv={"strides": [2, 1], "pads": [1, 0, 1, 2]})),
+        ]
+        if op == "Conv":
+            out.append(S("dilations", ok + ";dilations", mk(conv={"dilations": [2, 1]})))
+        else:
+            out.append(S("output_padding", ok + ";output_padding", mk(conv={"strides": [2, 2], "output_padding": [1, 0]})))
+            out.append(S("group3", ok + ";group=3", mk(group=3)))
+    return out
+
+
+# ------------------------------------------------------------------------------------------ Conv + affine
+@template("conv_affine")
+def t_conv_affine(p):
+    order = p["order"]
+
+    def mk(scale=2.0, offset=0.5, sshape=(), oshape=(), kind="init", pads="zeros", conv=None, bias=True, dtype="float32", opset=18,
+           tap=None, scale_first=False, offset_first=False, group=1, k=1, alts=None, clash=False, w_kind="init"):
+        def fn(h):
+            h.opset = opset
+            h.scale = 8.0
+            _f16tol(h, dtype)
+            cin = 2 * group
+            x = h.inp(dtype, [2, cin, 5, 6], mag="mod", name="X")
+            wv = _w(h, [4 * group, cin // group, k, k], dtype)
+            w = h.operand(wv, w_kind, name="Wc") if w_kind != "input" else h.inp(dtype, list(wv.shape), mag="mod", name="Wc")
+            b = h.operand(_w(h, [4 * group], dtype), "init", name="Bc") if bias else None
+            s = h.operand(np.full(sshape, scale, dtype), kind, name="sc", alts=[np.full(sshape, a, dtype) for a in (alts or [])])
+            o = h.operand(np.full(oshape, offset, dtype), kind, name="of")
+            attrs = dict(conv or {})
+            if group != 1:
+                attrs["group"] = group
+            if order == "affine_conv":
+                if pads == "zeros":
+                    attrs["pads"] = [0, 0, 0, 0]
+                elif pads is not None:
+                    attrs["pads"] = pads
+                m = h.node("Mul", [s, x] if scale_first else [x, s])
+                a = h.node("Add", [o, m] if offset_first else [m, o])
+                y = h.node("Conv", [a, w] + ([b] if b else []), **attrs)
+                mid = a
+            else:
+                if pads not in ("zeros", None):
+                    attrs["pads"] = pads
+                c = h.node("Conv", [x, w] + ([b] if b else []), **attrs)
+                m = h.node("Mul", [s, c] if scale_first else [c, s])
+                y = h.node("Add", [o, m] if offset_first else [m, o])
+                mid = c
+            h.out(y)
+            if tap:
+                h.tap(mid, tap)
+            if clash:
+                h.inits.append(numpy_helper.from_array(np.array(100, dtype=dtype), w + "_scaled"))
+                other = h.inp(dtype, [2], name="ov")
+                h.out(h.node("Add", [other, w + "_scaled"]))
+        return fn
+
+    ok = "scalar constants"
+    out = [
+        S("k1", ok, mk()), S("k3", ok, mk(k=3)), S("k3_strides_dil", ok + ";strides,dilations", mk(k=3, conv={"strides": [2, 1], "dilations": [1, 2]})),
+        S("group2", ok + ";group=2", mk(group=2, k=3)), S("scale_shape_1", ok + ";shape [1]", mk(sshape=(1,), oshape=(1,))),
+        S("scale_shape_1111", "size-1 constants of rank 4", mk(sshape=(1, 1, 1, 1), oshape=(1, 1, 1, 1))),
+        S("negative_scale_zero_offset", ok, mk(scale=-1.5, offset=0.0)), S("scale_zero", ok + ";scale=0", mk(scale=0.0)),
+        S("const_nodes_opset13", ok, mk(kind="const", opset=13)), S("opset21", ok, mk(opset=21)),
+        S("f16", ok + ";float16", mk(dtype="float16")),
+        S("no_bias", "conv without bias", mk(bias=False)),
+        S("scale_first", "Mul(scale, x)", mk(scale_first=True)), S("offset_first", "Add(offset, .)", mk(offset_first=True)),
+        S("per_channel_scale", "per-channel constants", mk(sshape=(1, 2, 1, 1) if order == "affine_conv" else (1, 4, 1, 1))),
+        S("w_graph_input", "W=graph-input", mk(w_kind="input")),
+        S("init_input", "overridable-initializer", mk(kind="init_input", alts=[3.0, -1.0])),
+        S("graph_input", "constants=graph-input", mk(kind="input", alts=[3.0])),
+        S("mid_is_output", "intermediate-is-output", mk(tap="output")), S("mid_has_consumer", "intermediate-has-consumer", mk(tap="consumer")),
+        S("initializer_name_clash", "new-initializer-name-exists", mk(clash=True), forms=("inferred", "bare")),
+    ]
+    if order == "affine_conv":
+        out += [
+            S("pads_absent", "pads absent", mk(pads=None)), S("pads_nonzero", "pads nonzero", mk(pads=[1, 1, 1, 1], k=3)),
+        ]
+    else:
+        out += [S("pads_nonzero", ok + ";pads nonzero", mk(pads=[1, 0, 2, 1], k=3)),
+                S("auto_pad_same", ok + ";auto_pad=SAME_UPPER", mk(conv={"auto_pad": "SAME_UPPER"}, k=3, pads=None))]
+    return out
+
+
+# ------------------------------------------------------------------------------------------ optional zero bias
+@template("optional_bias")
+def t_optional_bias(p):
+    op = p["op"]
+
+    def mk(bval=0.0, kind="init", dtype="float32", opset=18, attrs=None, bshape=None, group=1, alts=None, nd=2, per=None):
+        def fn(h):
+            h.opset = opset
+            h.scale = 4.0
+            a = dict(attrs or {})
+            if op == "Gemm":
+                M, K, N = 3, 4, 5
+                x = h.inp(dtype, [K, M] if a.get("transA") else [M, K], mag="mod", name="X")
+                w = h.operand(_w(h, [N, K] if a.get("transB") else [K, N], dtype), "init", name="W")
+                bs = list(bshape) if bshape is not None else [N]
+                bv = np.full(bs, bval, dtype)
+                b = h.operand(bv, kind, name="Bz", alts=[np.full(bs, v, dtype) for v in (alts or [])])
+                h.out(h.node("Gemm", [x, w, b], **a))
+                return
+            cin = 2 * group
+            if op == "QLinearConv":
+                x = h.inp("uint8", [1, cin, 5, 5], name="X")
+                C = 4 * group
+                w = h.operand(_w(h, [C, cin // group, 3, 3], "uint8"), "init", name="W")
+                f = lambda v: h.operand(np.array(v, np.float32), "init")
+                z = lambda v: h.operand(np.array(v, np.uint8), "init")
+                bv = np.full([C], int(bval), np.int32)
+                b = h.operand(bv, kind, name="Bz", alts=[np.full([C], int(v), np.int32) for v in (alts or [])])
+                if group != 1:
+                    a["group"] = group
+                h.out(h.node("QLinearConv", [x, f(0.05), z(3), w, f(0.1), z(2), f(0.2), z(10), b], **a))
+                return
+            x = h.inp(dtype, [2, cin] + [5] * nd, mag="mod", name="X")
+            C = 4 * group if op == "Conv" else 3 * group
+            wshape = ([C, cin // group] if op == "Conv" else [cin, C // group]) + [3] * nd
+            w = h.operand(_w(h, wshape, dtype), "init", name="W")
+            bv = np.full([C], bval, dtype)
+            if per is not None:
+                bv[per] = 1e-3
+            b = h.operand(bv, kind, name="Bz", alts=[np.full([C], v, dtype) for v in (alts or [])])
+            if group != 1:
+                a["group"] = group
+            h.out(h.node(op, [x, w, b], **a))
+        return fn
+
+    ok = "bias all zero"
+    q = op == "QLinearConv"
+    out = [
+        S("zero_init", ok, mk()), S("zero_const_node_opset13", ok, mk(kind="const", opset=13)), S("zero_opset21", ok, mk(opset=21)),
+        S("zero_init_input", "overridable-initializer", mk(kind="init_input", alts=[1, 2] if q else [1.0, -2.0])),
+        S("zero_graph_input", "bias=graph-input", mk(kind="input", alts=[1] if q else [1.0])),
+        S("nonzero", "bias nonzero", mk(bval=1 if q else 0.5)),
+    ]
+    if not q:
+        out += [S("negzero", ok + ";-0.0", mk(bval=-0.0)), S("tiny", "bias tiny nonzero", mk(bval=1e-30)),
+                S("f16", ok + ";float16", mk(dtype="float16"))]
+    if op == "Gemm":
+        out += [
+            S("f64", ok + ";double", mk(dtype="float64")),
+            S("beta_half_transB", ok + ";beta,transB", mk(attrs={"beta": 0.5, "transB": 1})), S("alpha_transA", ok + ";alpha,transA", mk(attrs={"alpha": 2.0, "transA": 1})),
+            S("bias_scalar", ok + ";C scalar", mk(bshape=())), S("bias_MN", ok + ";C=[M,N]", mk(bshape=(3, 5))), S("bias_1N", ok + ";C=[1,N]", mk(bshape=(1, 5))),
+        ]
+    else:
+        out += [S("group2", ok + ";group=2", mk(group=2)),
+                S("strides_pads", ok + ";strides,pads", mk(attrs={"strides": [2, 1], "pads": [1, 0, 1, 2]}))]
+        if not q:
+            out += [S("one_channel_nonzero", "bias nonzero in one channel", mk(per=1)), S("conv1d", ok, mk(nd=1)),
+                    S("auto_pad", ok + ";auto_pad", mk(attrs={"auto_pad": "SAME_UPPER"} if op == "Conv" else {"auto_pad": "VALID"}))]
+    return out
+
+
+# ------------------------------------------------------------------------------------------ rules.fusion: LayerNormalization
+def _ln_pattern(h, x, scale, eps_name, opset, sq="mul", norm="recip", axes_kind="init", axes=(-1,), keepdims=1):
+    def rm(v):
+        if opset >= 18:
+            return h.node("ReduceMean", [v, h.operand(np.array(list(axes), np.int64), axes_kind)], keepdims=keepdims)
+        return h.node("ReduceMean", [v], axes=list(axes), keepdims=keepdims)
+    mean = rm(x)
+    dev = h.node("Sub", [x, mean])
+    if sq == "mul":
+        dd = h.node("Mul", [dev, dev])
+    else:
+        dd = h.node("Pow", [dev, h.operand(np.array(2.0, np.float32) if sq == "pow_f" else np.array(2, np.int64), "init")])
+    var = rm(dd)
+    ve = h.node("Add", [var, eps_name])
+    sd = h.node("Sqrt", [ve])
+    if norm == "recip":
+        nrm = h.node("Mul", [dev, h.node("Reciprocal", [sd])])
+    else:
+        nrm = h.node("Div", [dev, sd])
+    return h.node("Mul", [nrm, scale]), dev
+
+
+@template("layer_norm")
+def t_layer_norm(p):
+    def mk(xshape=(2, 3, 4), dtype="float32", opset=18, sq="mul", norm="recip", eps=1e-5, eshape=(), ekind="init", sshape=None,
+           skind="input", axes=(-1,), keepdims=1, decl=None, tap=None, alts=None):
+        def fn(h):
+            h.opset = opset
+            h.scale = 20.0
+            x = h.inp(dtype, decl if decl is not None else list(xshape), rt=list(xshape), mag="mod", name="X")
+            ss = list(sshape) if sshape is not None else [xshape[-1]]
+            if skind == "input":
+                sc = h.inp(dtype, ss, mag="mod", name="Sc")
+            else:
+                sc = h.operand(np.round(h.rs.uniform(0.5, 2, ss), 2).astype(dtype), skind, name="Sc")
+            e = h.operand(np.full(eshape, eps, dtype), ekind, name="eps", alts=[np.full(eshape, a, dtype) for a in (alts or [])])
+            y, dev = _ln_pattern(h, x, sc, e, opset, sq, norm, axes=axes, keepdims=keepdims)
+            h.out(y)
+            if tap:
+                h.tap(dev, tap)
+        return fn
+
+    ok = "last-axis layer norm;scale=[D]"
+    return [
+        S("mul_recip", ok, mk()), S("pow_div", ok, mk(sq="pow_f", norm="div")), S("pow_int_recip", ok, mk(sq="pow_i")),
+        S("mul_div_rank2_opset21", ok, mk(xshape=(3, 4), norm="div", opset=21)), S("rank4_sym", ok, mk(xshape=(2, 1, 3, 4), decl=["N", 1, "S", 4])),
+        S("rank1", ok, mk(xshape=(6,))), S("f64", ok + ";double", mk(dtype="float64")), S("f16", "x float16", mk(dtype="float16")),
+        S("eps_large", ok + ";eps=0.1", mk(eps=0.1)), S("eps_shape_1", ok + ";eps shape [1]", mk(eshape=(1,))),
+        S("eps_shape_111_rank2_x", "eps of higher rank than x", mk(xshape=(3, 4), eshape=(1, 1, 1))),
+        S("eps_const_node_opset23", ok, mk(ekind="const", opset=23)), S("scale_init", ok, mk(skind="init")),
+        S("scale_scalar", "scale not of shape [D]", mk(sshape=())), S("scale_1", "scale not of shape [D]", mk(sshape=(1,))),
+        S("scale_full", "scale not of shape [D]", mk(sshape=(2, 3, 4))), S("scale_S1", "scale not of shape [D]", mk(sshape=(3, 1))),
+        S("scale_1D", "scale=[1,D]", mk(sshape=(1, 4))),
+        S("opset17_axes_attr", "ReduceMean axes attribute", mk(opset=17)), S("opset13_axes_attr", "ReduceMean axes attribute", mk(opset=13)),
+        S("axes_minus2", "axes!=[-1]", mk(axes=(-2,))), S("axes_positive_last", "axes=[rank-1]", mk(axes=(2,))),
+        S("keepdims0_rank1", "keepdims=0", mk(xshape=(6,), keepdims=0)),
+        S("eps_init_input", "overridable-initializer", mk(ekind="init_input", alts=[0.5, 1.0])),
+        S("eps_graph_input", "eps=graph-input", mk(ekind="input", alts=[0.5])),
+        S("dev_is_output", "intermediate-is-output", mk(tap="output")), S("dev_has_consumer", "intermediate-has-consumer", mk(tap="consumer")),
+    ]
+
+
+@template("layer_norm_bias")
+def t_layer_norm_bias(p):
+    def mk(xshape=(2, 3, 4), dtype="float32", opset=18, axis=None, eps=None, bshape=None, bkind="input", nout=1, bias_first=False,
+           existing_bias=False, stash=None, use_extra=False, tap=None):
+        def fn(h):
+            h.opset = opset
+            h.scale = 20.0
+            x = h.inp(dtype, list(xshape), mag="mod", name="X")
+            ax = -1 if axis is None else axis
+            nshape = list(xshape)[ax:] if ax < 0 else list(xshape)[ax:]
+            sc = h.inp(dtype, nshape, mag="mod", name="Sc")
+            ins = [x, sc]
+            if existing_bias:
+                ins.append(h.inp(dtype, nshape, mag="mod", name="B0"))
+            o = h.node("LayerNormalization", ins, nout=nout, axis=axis, epsilon=eps, stash_type=stash)
+            y = o if nout == 1 else o[0]
+            bs = list(bshape) if bshape is not None else nshape
+            b = h.inp(dtype, bs, mag="mod", name="Bi") if bkind == "input" else h.operand(_w(h, bs, dtype), bkind, name="Bi")
+            z = h.node("Add", [b, y] if bias_first else [y, b])
+            h.out(z)
+            if use_extra and nout > 1:
+                h.out(o[1])
+            if tap:
+                h.tap(y, tap)
+        return fn
+
+    ok = "bias has the normalized shape"
+    return [
+        S("basic", ok, mk()), S("bias_init_opset17", ok, mk(bkind="init", opset=17)), S("opset21_eps", ok, mk(opset=21, eps=1e-3)),
+        S("axis1_bias_full", ok + ";axis=1", mk(axis=1, bshape=(3, 4))), S("axis_minus2", ok + ";axis=-2", mk(axis=-2)),
+        S("f64", ok + ";double", mk(dtype="float64")), S("rank2", ok, mk(xshape=(3, 4))),
+        S("three_outputs_unused", ok + ";3 outputs", mk(nout=3)), S("three_outputs_used", ok + ";3 outputs used", mk(nout=3, use_extra=True)),
+        S("bias_scalar", "bias not of the normalized shape", mk(bshape=())), S("bias_1", "bias not of the normalized shape", mk(bshape=(1,))),
+        S("bias_full", "bias not of the normalized shape", mk(bshape=(2, 3, 4))), S("bias_S1", "bias not of the normalized shape", mk(bshape=(3, 1))),
+        S("bias_1D", "bias=[1,D]", mk(bshape=(1, 4))),
+        S("axis1_bias_D", "bias not of the normalized shape", mk(axis=1, bshape=(4,))),
+        S("bias_rank4", "bias of higher rank than x", mk(bshape=(1, 1, 1, 4))),
+        S("bias_first", "Add(bias, LN)", mk(bias_first=True)), S("existing_bias", "LN already has a bias", mk(existing_bias=True)),
+        S("stash_type", ok + ";stash_type=1", mk(stash=1)),
+        S("ln_is_output", "intermediate-is-output", mk(tap="output")), S("ln_has_consumer", "intermediate-has-consumer", mk(tap="consumer")),
+    ]
+
+
+# ------------------------------------------------------------------------------------------ rules.fusion: RMSNormalization
+@template("rms_norm")
+def t_rms_norm(p):
+    mul_order = p["mul_order"]
+
+    def mk(xshape=(2, 3, 4), dtype="float32", opset=23, cast_in=None, cast_out=None, eps=1e-6, eshape=(), ekind="init", sshape=None,
+           sdtype=None, pow_c=2.0, noop_attr=0, keepdims=1, axes=(-1,), decl=None, order=None, alts=None, tap=None, pow_int=False):
+        def fn(h):
+            from onnx import TensorProto as TP
+            h.opset = opset
+            h.scale = 20.0
+            if dtype == "float16":
+                h.rtol, h.atol = 2e-2, 2e-2
+            x = h.inp(dtype, decl if decl is not None else list(xshape), rt=list(xshape), mag="mod", name="X")
+            cdt = dtype
+            xc = x
+            if cast_in:
+                xc = h.node("Cast", [x], to={"float32": TP.FLOAT, "float64": TP.DOUBLE, "float16": TP.FLOAT16}[cast_in])
+                cdt = cast_in
+            pw = h.node("Pow", [xc, h.operand(np.array(pow_c, np.int64 if pow_int else np.float32), "init")])
+            if opset >= 18:
+                ms = h.node("ReduceMean", [pw, h.operand(np.array(list(axes), np.int64), "init")], keepdims=keepdims, noop_with_empty_axes=noop_attr)
+            else:
+                ms = h.node("ReduceMean", [pw], axes=list(axes), keepdims=keepdims)
+            e = h.operand(np.full(eshape, eps, cdt), ekind, name="eps", alts=[np.full(eshape, a, cdt) for a in (alts or [])])
+            r = h.node("Reciprocal", [h.node("Sqrt", [h.node("Add", [ms, e])])])
+            n = h.node("Mul", [xc, r])
+            odt = cdt
+            if cast_out:
+                n = h.node("Cast", [n], to={"float32": TP.FLOAT, "float64": TP.DOUBLE, "float16": TP.FLOAT16}[cast_out])
+                odt = cast_out
+            ss = list(sshape) if sshape is not None else [xshape[-1]]
+            sc = h.inp(sdtype or odt, ss, mag="mod", name="Sc")
+            first = mul_order if order is None else order
+            y = h.node("Mul", [n, sc] if first else [sc, n])
+            h.out(y)
+            if tap:
+                h.tap(ms, tap)
+        return fn
+
+    ok = "last-axis rms norm;scale=[D]"
+    return [
+        S("plain_f32", ok, mk()), S("plain_f64", ok + ";double", mk(dtype="float64")), S("rank2", ok, mk(xshape=(3, 4))),
+        S("rank4_sym", ok, mk(xshape=(2, 1, 3, 4), decl=["N", 1, "S", 4])), S("rank1", ok, mk(xshape=(6,))),
+        S("cast_f16_f32_f16", ok + ";casts f16->f32->f16", mk(dtype="float16", cast_in="float32", cast_out="float16")),
+        S("cast_f16_f32_nocastout", "cast to compute type on input only", mk(dtype="float16", cast_in="float32")),
+        S("cast_f32_f64_f32", ok + ";casts f32->f64->f32", mk(cast_in="float64", cast_out="float32")),
+        S("plain_f16", "compute type float16", mk(dtype="float16")),
+        S("eps_large", ok + ";eps=0.1", mk(eps=0.1)), S("eps_shape_1", ok + ";eps shape [1]", mk(eshape=(1,))),
+        S("eps_shape_111_rank2_x", "eps of higher rank than x", mk(xshape=(3, 4), eshape=(1, 1, 1))),
+        S("eps_const_node", ok, mk(ekind="const")),
+        S("scale_scalar", "scale not of shape [D]", mk(sshape=())), S("scale_full", "scale not of shape [D]", mk(sshape=(2, 3, 4))),
+        S("scale_S1", "scale not of shape [D]", mk(sshape=(3, 1))), S("scale_1D", "scale=[1,D]", mk(sshape=(1, 4))),
+        S("opset22", "opset<23", mk(opset=22)), S("opset18", "opset<23", mk(opset=18)),
+        S("opset17_axes_attr", "ReduceMean axes attribute", mk(opset=17)),
+        S("pow_3", "exponent!=2", mk(pow_c=3.0)),
+        S("pow_int", ok + ";int exponent", mk(pow_c=2, pow_int=True)),
+        S("noop_attr_absent", "noop_with_empty_axes absent", mk(noop_attr=None)), S("axes_minus2", "axes!=[-1]", mk(axes=(-2,))),
+        S("other_mul_order", "other operand order", mk(order=not mul_order)),
+        S("eps_init_input", "overridable-initializer", mk(ekind="init_input", alts=[0.5, 1.0])),
+        S("eps_graph_input", "eps=graph-input", mk(ekind="input", alts=[0.5])),
+        S("ms_is_output", "intermediate-is-output", mk(tap="output")), S("ms_has_consumer", "intermediate-has-consumer", mk(tap="consumer")),
+    ]
+
+
+# ------------------------------------------------------------------------------------------ rules.fusion: RotaryEmbedding
+INT64_MAX = 2**63 - 1
+
+
+def _i64(h, v, kind="init", alts=None):
+    return h.operand(np.array(v, np.int64), kind, alts=[np.array(a, np.int64) for a in (alts or [])])
+
+
+@template("rotary")
+def t_rotary(p):
+    def mk(B=2, H=2, Sq=3, D=4, dtype="float32", opset=23, end2="big", half=None, unsq=(1,), decl=None, kind="init", fshape=None,
+           axes=(3,), steps=(1,), x_first=True, tap=None, alts=None):
+        def fn(h):
+            h.opset = opset
+            h.scale = 10.0
+            x = h.inp(dtype, decl if decl is not None else [B, H, Sq, D], rt=[B, H, Sq, D], mag="mod", name="X")
+            fs = list(fshape) if fshape is not None else [B, Sq, D // 2]
+            fr = h.inp(dtype, fs, mag="mod", name="F")
+            hf = D // 2 if half is None else half
+            rep = h.node("Concat", [fr, fr], axis=-1)
+            cos = h.node("Unsqueeze", [h.node("Cos", [rep]), _i64(h, list(unsq))])
+            sin = h.node("Unsqueeze", [h.node("Sin", [rep]), _i64(h, list(unsq))])
+            e2 = INT64_MAX if end2 == "big" else (D if end2 == "D" else end2)
+            x1 = h.node("Slice", [x, _i64(h, [0], kind), _i64(h, [hf], kind, alts), _i64(h, list(axes)), _i64(h, list(steps))])
+            x2 = h.node("Slice", [x, _i64(h, [hf], kind), _i64(h, [e2], kind), _i64(h, list(axes)), _i64(h, list(steps))])
+            rot = h.node("Concat", [h.node("Neg", [x2]), x1], axis=-1)
+            a = h.node("Mul", [x, cos] if x_first else [cos, x])
+            b = h.node("Mul", [rot, sin])
+            h.out(h.node("Add", [a, b]))
+            if tap:
+                h.tap(rot, tap)
+        return fn
+
+    ok = "rotate-half;4D;static heads"
+    return [
+        S("basic", ok, mk()), S("end2_eq_D", ok, mk(end2="D")), S("D8_H1", ok, mk(D=8, H=1)), S("B1_S1_D2", ok, mk(B=1, Sq=1, D=2)),
+        S("f64", "x double", mk(dtype="float64")), S("f16", ok + ";float16", mk(dtype="float16")),
+        S("sym_batch_seq", ok + ";symbolic B,S", mk(decl=["B", 2, "S", 4])),
+        S("sym_heads", "num_heads symbolic", mk(decl=[2, "H", 3, 4])), S("sym_head_size", "head_size symbolic", mk(decl=[2, 2, 3, "D"])),
+        S("const_nodes", ok, mk(kind="const")),
+        S("opset22", "opset<23", mk(opset=22)), S("opset18", "opset<23", mk(opset=18)),
+        S("uneven_split", "split not at D/2", mk(D=8, half=2, fshape=(2, 3, 4))),
+        S("unsqueeze_axis2", "unsqueeze axes!=[1]", mk(unsq=(2,), H=3, Sq=1, fshape=(2, 3, 2))),
+        S("cos_first", "Mul(cos, x)", mk(x_first=False)),
+        S("freqs_broadcast_batch", "freqs batch dim is 1", mk(fshape=(1, 3, 2))),
+        S("bounds_init_input", "overridable-initializer", mk(kind="init_input")),
+        S("bounds_graph_input", "bounds=graph-input", mk(kind="input")),
+        S("rot_is_output", "intermediate-is-output", mk(tap="output")), S("rot_has_consumer", "intermediate-has-consumer", mk(tap="consumer")),
+    ]
+
+
+@template("partial_rotary")
+def t_partial_rotary(p):
+    def mk(B=2, H=2, Sq=3, D=8, R=4, dtype="float32", opset=23, start2=None, end_big=True, interleaved=None, num_heads=None,
+           red=None, kind="init", decl=None, tap=None, pos_ids=False, alts=None, start0=0):
+        def fn(h):
+            h.opset = opset
+            h.scale = 10.0
+            x = h.inp(dtype, decl if decl is not None else [B, H, Sq, D], rt=[B, H, Sq, D], mag="mod", name="X")
+            rd = R if red is None else red
+            if pos_ids:
+                cs = h.inp(dtype, [8, rd // 2], mag="mod", name="Cc")
+                sn = h.inp(dtype, [8, rd // 2], mag="mod", name="Sc")
+            else:
+                cs = h.inp(dtype, [B, Sq, rd // 2], mag="mod", name="Cc")
+                sn = h.inp(dtype, [B, Sq, rd // 2], mag="mod", name="Sc")
+            s2 = R if start2 is None else start2
+            p1 = h.node("Slice", [x, _i64(h, [start0]), _i64(h, [R], kind, alts), _i64(h, [3]), _i64(h, [1])])
+            p2 = h.node("Slice", [x, _i64(h, [s2], kind), _i64(h, [INT64_MAX if end_big else D]), _i64(h, [3]), _i64(h, [1])])
+            ins = [p1, cs, sn]
+            if pos_ids:
+                ins.append(h.inp("int64", [B, Sq], gen=lambda k: (np.arange(B * Sq).reshape(B, Sq) + k) % 8, name="pos"))
+            ro = h.node("RotaryEmbedding", ins, interleaved=interleaved, num_heads=num_heads, rotary_embedding_dim=red)
+            h.out(h.node("Concat", [ro, p2], axis=-1))
+            if tap:
+                h.tap(ro, tap)
+        return fn
+
+    ok = "contiguous split;rope on first part"
+    return [
+        S("basic", ok, mk()), S("R2_D8", ok, mk(R=2)), S("R6_D8_H1", ok, mk(R=6, H=1)), S("f64", ok + ";double", mk(dtype="float64")),
+        S("f16", ok + ";float16", mk(dtype="float16")), S("num_heads_attr", ok + ";num_heads", mk(num_heads=2)),
+        S("interleaved0", ok + ";interleaved=0", mk(interleaved=0)), S("interleaved1", "interleaved=1", mk(interleaved=1)),
+        S("position_ids", ok + ";position_ids", mk(pos_ids=True)), S("sym_dims", ok + ";symbolic", mk(decl=["B", 2, "S", 8])),
+        S("const_nodes", ok, mk(kind="const")),
+        S("gap", "end1!=start2", mk(R=4, start2=6)), S("overlap", "end1!=start2", mk(R=4, start2=2)),
+        S("end_eq_D", "second slice end=D", mk(end_big=False)),
+        S("existing_red", "rotary_embedding_dim present", mk(R=4, red=2)),
+        S("bounds_init_input", "overridable-initializer", mk(kind="init_input")),
+        S("bounds_graph_input", "bounds=graph-input", mk(kind="input")),
+        S("rope_is_output", "intermediate-is-output", mk(tap="output")), S("rope_has_consumer", "intermediate-has-consumer", mk(tap="consumer")),
+    ]
+
+
+# ------------------------------------------------------------------------------------------ rules.fusion: GQA via Attention-23
+@template("gqa")
+def t_gqa(p):
+    def mk(B=2, Hkv=2, G=2, Sq=3, P=2, D=4, dtype="float32", opset=23, mask=None, attrs=None, decl_q=None, unsq=2, expand="group",
+           tap=None, use_present=True, past=True, kind="init", axes1d=False):
+        def fn(h):
+            h.opset = opset
+            h.scale = 10.0
+            H = Hkv * G
+            T = Sq + (P if past else 0)
+            q = h.inp(dtype, decl_q if decl_q is not None else [B, H, Sq, D], rt=[B, H, Sq, D], mag="mod", name="Q")
+            k = h.inp(dtype, [B, Hkv, Sq, D], mag="mod", name="K")
+            v = h.inp(dtype, [B, Hkv, Sq, D], mag="mod", name="V")
+            pk = h.inp(dtype, [B, Hkv, P, D], mag="mod", name="PK")
+            pv = h.inp(dtype, [B, Hkv, P, D], mag="mod", name="PV")
+            def grow(past_, cur):
+                c = h.node("Concat", [past_, cur], axis=-2)
+                u = h.node("Unsqueeze", [c, _i64(h, ([unsq] if axes1d else unsq), kind)])
+                if expand == "group":
+                    e = h.node("Expand", [u, _i64(h, [B, Hkv, G, Sq + P, D])])
+                    r = h.node("Reshape", [e, _i64(h, [B, H, Sq + P, D])])
+                elif expand == "interleave":   # Unsqueeze at 1 -> heads ordered kv0,kv1,kv0,kv1
+                    e = h.node("Expand", [u, _i64(h, [B, G, Hkv, Sq + P, D])])
+                    r = h.node("Reshape", [e, _i64(h, [B, H, Sq + P, D])])
+                return c, r
+            ck, rk = grow(pk, k)
+            cv, rv = grow(pv, v)
+            ins = [q, rk, rv]
+            if mask == "bool":
+                ins.append(h.inp("bool", [Sq, Sq + P], name="M"))
+            elif mask == "float":
+                ins.append(h.inp(dtype, [Sq, Sq + P], mag="mod", name="M"))
+            y = h.node("Attention", ins, **(attrs or {}))
+            h.out(y)
+            if use_present:
+                h.out(ck, cv)
+            if tap:
+                h.tap(rk, tap)
+        return fn
+
+    ok = "canonical GQA"
+    return [
+        S("basic", ok, mk()), S("G1", ok + ";G=1", mk(G=1)), S("G3_Hkv1", ok, mk(G=3, Hkv=1)), S("P1_S1", ok, mk(P=1, Sq=1)),
+        S("f16", ok + ";float16", mk(dtype="float16")),
+        S("mask_float", ok + ";float mask", mk(mask="float")), S("mask_bool", ok + ";bool mask", mk(mask="bool")),
+        S("scale_attr", ok + ";scale", mk(attrs={"scale": 0.3})), S("causal", "is_causal=1 with past", mk(attrs={"is_causal": 1})),
+        S("softcap", ok + ";softcap", mk(attrs={"softcap": 2.0})),
+        S("sym_q", ok + ";symbolic", mk(decl_q=["B", 4, "S", 4])),
+        S("present_unused", "present k/v not graph outputs", mk(use_present=False)),
+        S("interleaved_heads", "heads interleaved instead of grouped", mk(unsq=1, expand="interleave")),
+        S("opset24", ok + ";opset 24", mk(opset=24)),
+        S("unsq_init_input", "overridable-initializer", mk(kind="init_input")),
+        S("axes_1d", "Unsqueeze axes 1-D [2]", mk(axes1d=True)),
+        S("expanded_is_output", "intermediate-is-output", mk(tap="output")),
+    ]
